@@ -23,6 +23,9 @@ func (f BooleanOffOnFactoryType) New(v uint8) (BooleanOffOn, error) {
 }
 
 func (f BooleanOffOnFactoryType) NewEnum(v int) (Enum, error) {
+	if v < 0 || v > 255 {
+		return nil, ErrInvalidEnumIdx
+	}
 	return f.New(uint8(v))
 }
 
